@@ -51,4 +51,296 @@ theorem signExtend_toNat_mod {w v : Nat} (x : BitVec w) (h : w ≤ v) :
     rw [e, Nat.add_mul_mod_self_left, Nat.mod_eq_of_lt hx]
   · simp [Nat.mod_eq_of_lt hx]
 
+theorem mapM_mono {α β : Type} (g g' : α → Option β) (h : ∀ a v, g a = some v → g' a = some v) :
+    ∀ (l : List α) (vs : List β), l.mapM g = some vs → l.mapM g' = some vs := by
+  intro l
+  induction l with
+  | nil => intro vs hv; simpa using hv
+  | cons a l ih =>
+    intro vs hv
+    simp only [List.mapM_cons] at hv ⊢
+    cases ha : g a with
+    | none => simp [ha] at hv
+    | some b =>
+      cases hl : l.mapM g with
+      | none => simp [ha, hl] at hv
+      | some bs =>
+        simp [ha, hl] at hv
+        simp [h a b ha, ih bs hl, hv]
+
+theorem binE_mono (op : BinOp) (va : Val) (rb rb' : Option Val) (h : ∀ x, rb = some x → rb' = some x)
+    (v : Val) (hv : binE op va rb = some v) : binE op va rb' = some v := by
+  unfold binE at hv ⊢
+  split at hv
+  · simpa using hv
+  · simpa using hv
+  · cases hr : rb with
+    | none => simp [hr] at hv
+    | some x => simp [hr] at hv; simp [h x hr, hv]
+
+theorem assignTo_mono (ev ev' : Expr → Env → Option Val)
+    (h : ∀ e env v, ev e env = some v → ev' e env = some v)
+    (env : Env) (lv : LVal) (v : Val) (r : Env) (hr : assignTo ev env lv v = some r) :
+    assignTo ev' env lv v = some r := by
+  unfold assignTo at hr ⊢
+  cases hl : env.lookup lv.x with
+  | none => simp [hl] at hr
+  | some root =>
+    simp only [hl] at hr ⊢
+    cases hm : lv.path.mapM (pathIdx ev env) with
+    | none => simp [hm] at hr
+    | some idxs =>
+      have hm' := mapM_mono (pathIdx ev env) (pathIdx ev' env) (by
+          intro a i hi
+          cases a with
+          | idx e =>
+            simp only [pathIdx] at hi ⊢
+            cases he : ev e env with
+            | none => simp [he] at hi
+            | some x => simp [he] at hi; simp [h e env x he, hi]
+          | fld k => simpa [pathIdx] using hi) _ _ hm
+      simp only [hm] at hr
+      simp only [hm']
+      exact hr
+
+theorem assignAll_mono (ev ev' : Expr → Env → Option Val)
+    (h : ∀ e env v, ev e env = some v → ev' e env = some v) :
+    ∀ (lvs : List LVal) (env : Env) (vs : List Val) (r : Env),
+      assignAll ev env lvs vs = some r → assignAll ev' env lvs vs = some r := by
+  intro lvs
+  induction lvs with
+  | nil => intro env vs r hr; cases vs <;> simp_all [assignAll]
+  | cons lv lvs ih =>
+    intro env vs r hr
+    cases vs with
+    | nil => simp [assignAll] at hr
+    | cons v vs =>
+      simp only [assignAll] at hr ⊢
+      cases ha : assignTo ev env lv v with
+      | none => simp [ha] at hr
+      | some env' =>
+        simp [ha] at hr
+        simp [assignTo_mono ev ev' h env lv v env' ha, ih env' vs r hr]
+
+
+
+/-- Fuel monotonicity of the interpreter: a defined result does not change
+when more fuel is given. -/
+theorem fuel_mono_succ (P : Prog) : ∀ f : Nat,
+    (∀ e env v, evalE P f e env = some v → evalE P (f + 1) e env = some v) ∧
+    (∀ s env o, execS P f s env = some o → execS P (f + 1) s env = some o) ∧
+    (∀ ss env o, execB P f ss env = some o → execB P (f + 1) ss env = some o) ∧
+    (∀ i cur c hi st body env o, execFor P f i cur c hi st body env = some o →
+        execFor P (f + 1) i cur c hi st body env = some o) := by
+  intro f
+  induction f with
+  | zero =>
+    refine ⟨?_, ?_, ?_, ?_⟩ <;> intros <;> simp_all [evalE, execS, execB, execFor]
+  | succ f ih =>
+    obtain ⟨ihE, ihS, ihB, ihF⟩ := ih
+    have ihArgs : ∀ (env : Env) (args : List Expr) (vs : List Val),
+        args.mapM (fun a => evalE P f a env) = some vs →
+        args.mapM (fun a => evalE P (f + 1) a env) = some vs := fun env args vs h =>
+      mapM_mono _ _ (fun a v hv => ihE a env v hv) args vs h
+    refine ⟨?_, ?_, ?_, ?_⟩
+    · -- expressions
+      intro e env v h
+      cases e with
+      | lit t n => simpa [evalE] using h
+      | var x => simpa [evalE] using h
+      | bin op a b =>
+        simp only [evalE] at h ⊢
+        cases ha : evalE P f a env with
+        | none => simp [ha] at h
+        | some va =>
+          simp only [ha, Option.bind_some] at h
+          simp only [ihE a env va ha, Option.bind_some]
+          exact binE_mono op va _ _ (fun x hx => ihE b env x hx) v h
+      | shift l a k =>
+        simp only [evalE] at h ⊢
+        cases ha : evalE P f a env with
+        | none => simp [ha] at h
+        | some va => simp only [ha] at h; simp only [ihE a env va ha]; exact h
+      | not a =>
+        simp only [evalE] at h ⊢
+        cases ha : evalE P f a env with
+        | none => simp [ha] at h
+        | some va => simp only [ha] at h; simp only [ihE a env va ha]; exact h
+      | neg a =>
+        simp only [evalE] at h ⊢
+        cases ha : evalE P f a env with
+        | none => simp [ha] at h
+        | some va => simp only [ha] at h; simp only [ihE a env va ha]; exact h
+      | cast t a =>
+        simp only [evalE] at h ⊢
+        cases ha : evalE P f a env with
+        | none => simp [ha] at h
+        | some va => simp only [ha] at h; simp only [ihE a env va ha]; exact h
+      | idx a i =>
+        simp only [evalE] at h ⊢
+        cases ha : evalE P f a env with
+        | none => simp [ha] at h
+        | some va =>
+          cases hi : evalE P f i env with
+          | none => simp [ha, hi] at h
+          | some vi =>
+            simp only [ha, hi] at h
+            simp only [ihE a env va ha, ihE i env vi hi]
+            exact h
+      | fld a k =>
+        simp only [evalE] at h ⊢
+        cases ha : evalE P f a env with
+        | none => simp [ha] at h
+        | some va => simp only [ha] at h; simp only [ihE a env va ha]; exact h
+      | call g args =>
+        simp only [evalE] at h ⊢
+        cases hg : P[g]? with
+        | none => simp [hg] at h
+        | some fn =>
+          simp only [hg] at h ⊢
+          cases hm : args.mapM (fun a => evalE P f a env) with
+          | none => simp [hm] at h
+          | some vs =>
+            simp only [hm] at h
+            simp only [ihArgs env args vs hm]
+            generalize bindParams fn.params _ = bp at h ⊢
+            cases bp with
+            | none => simp at h
+            | some sc =>
+              simp only at h ⊢
+              cases hx : execB P f fn.body [sc] with
+              | none => simp [hx] at h
+              | some r =>
+                simp only [hx] at h
+                simp only [ihB _ _ _ hx]
+                exact h
+    · -- statements
+      intro s env o h
+      cases s with
+      | decl x t init =>
+        cases init with
+        | none => simpa [execS] using h
+        | some e =>
+          simp only [execS] at h ⊢
+          cases he : evalE P f e env with
+          | none => simp [he] at h
+          | some v => simp only [he] at h; simp only [ihE e env v he]; exact h
+      | define xs e =>
+        simp only [execS] at h ⊢
+        cases he : evalE P f e env with
+        | none => simp [he] at h
+        | some v => simp only [he] at h; simp only [ihE e env v he]; exact h
+      | assign lvs e =>
+        simp only [execS] at h ⊢
+        cases he : evalE P f e env with
+        | none => simp [he] at h
+        | some v =>
+          simp only [he] at h
+          simp only [ihE e env v he]
+          have hev : ∀ e env v, (fun e env => evalE P f e env) e env = some v →
+              (fun e env => evalE P (f + 1) e env) e env = some v := fun e env v hv => ihE e env v hv
+          split at h
+          · rename_i lv
+            cases ha : assignTo (fun e env => evalE P f e env) env lv v with
+            | none => simp [ha] at h
+            | some r =>
+              simp only [ha] at h
+              simp only [assignTo_mono _ _ hev env lv v r ha]
+              exact h
+          · split at h
+            · rename_i vs
+              cases ha : assignAll (fun e env => evalE P f e env) env lvs vs with
+              | none => simp [ha] at h
+              | some r =>
+                simp only [ha] at h
+                simp only [assignAll_mono _ _ hev lvs env vs r ha]
+                exact h
+            · simp at h
+      | ifte c th el =>
+        simp only [execS] at h ⊢
+        cases hc : evalE P f c env with
+        | none => simp [hc] at h
+        | some vc =>
+          simp only [hc] at h
+          simp only [ihE c env vc hc]
+          split at h
+          · cases hb : execB P f th ([] :: env) with
+            | none => simp [hb] at h
+            | some r => simp only [hb] at h; simp only [ihB _ _ _ hb]; exact h
+          · cases hb : execB P f el ([] :: env) with
+            | none => simp [hb] at h
+            | some r => simp only [hb] at h; simp only [ihB _ _ _ hb]; exact h
+          · simp at h
+      | «for» i lo c hi st body =>
+        simp only [execS] at h ⊢
+        exact ihF _ _ _ _ _ _ _ _ h
+      | ret es =>
+        simp only [execS] at h ⊢
+        cases hm : es.mapM (fun a => evalE P f a env) with
+        | none => simp [hm] at h
+        | some vs => simp only [hm] at h; simp only [ihArgs env es vs hm]; exact h
+    · -- blocks
+      intro ss env o h
+      cases ss with
+      | nil => simpa [execB] using h
+      | cons s ss =>
+        simp only [execB] at h ⊢
+        cases hs : execS P f s env with
+        | none => simp [hs] at h
+        | some r =>
+          simp only [hs] at h
+          simp only [ihS s env r hs]
+          cases r with
+          | normal env' => exact ihB _ _ _ h
+          | returned vs => exact h
+    · -- loops
+      intro i cur c hi st body env o h
+      simp only [execFor] at h ⊢
+      split at h
+      · rename_i hc
+        simp only [hc, if_true]
+        cases hb : execB P f body ([(i, loopVal cur)] :: env) with
+        | none => simp [hb] at h
+        | some r =>
+          simp only [hb] at h
+          simp only [ihB _ _ _ hb]
+          cases r with
+          | normal env' => exact ihF _ _ _ _ _ _ _ _ h
+          | returned vs => exact h
+      · rename_i hc
+        simp only [hc]
+        exact h
+
+
+theorem evalE_mono (P : Prog) {f f' : Nat} (hle : f ≤ f') (e : Expr) (env : Env) (v : Val)
+    (h : evalE P f e env = some v) : evalE P f' e env = some v := by
+  induction hle with
+  | refl => exact h
+  | step _ ih => exact (fuel_mono_succ P _).1 e env v ih
+
+theorem execB_mono (P : Prog) {f f' : Nat} (hle : f ≤ f') (ss : List Stmt) (env : Env) (o : Outcome)
+    (h : execB P f ss env = some o) : execB P f' ss env = some o := by
+  induction hle with
+  | refl => exact h
+  | step _ ih => exact (fuel_mono_succ P _).2.2.1 ss env o ih
+
+/-- The result of `run`, once defined, is the same for every larger fuel. -/
+theorem run_mono (P : Prog) {f f' : Nat} (hle : f ≤ f') (main : Nat) (args : List Val) (r : List Val)
+    (h : run P f main args = some r) : run P f' main args = some r := by
+  unfold run at h ⊢
+  cases hm : P[main]? with
+  | none => simp [hm] at h
+  | some fn =>
+    simp only [hm] at h ⊢
+    cases hb : bindParams fn.params args with
+    | none => simp [hb] at h
+    | some sc =>
+      simp only [hb] at h ⊢
+      cases hx : execB P f fn.body [sc] with
+      | none => simp [hx] at h
+      | some o =>
+        simp only [hx] at h
+        simp only [execB_mono P hle _ _ _ hx]
+        exact h
+
 end Mpc.Mpcl
